@@ -1247,18 +1247,14 @@ def su_oracle2(case, got, tree, asset, hit):
     if not ok:
         v = {'detail': 'the generated URL %r, requested from the same application, answers %s' % (got['url'], json.dumps(back, default=str)[:140].replace(tree.T, '<T>')),
              'expected': {'out': exp, 'path': target.replace(tree.T, '<T>')}}
-        # narrow class of observation O-C16d
-        names = [su_norm_name(n) for n, _ in case['adds']]
-        if True:
-            mine = pre + '/' + name.lstrip('/')
-            earlier = []
-            for n in names:
-                if n == name:
-                    break
-                if not su_is_url(n):
-                    earlier.append(pre + '/' + n.lstrip('/'))
-            if any(path[len(case.get('script_name', '')):].startswith(e) for e in earlier):
-                v['observation'] = 'O-C16d'
+        # O-C16d: the round trip is demanded only where the GENERATING view is also the RECEIVING one — another static route
+        # that precedes it in mapper order (declared earlier, or this one was re-declared and moved to the end) and whose
+        # prefix the path starts with receives the request instead (what that view must answer is checked by su_c16_back)
+        reqpath = path[len(case.get('script_name', '')):]
+        mine = pre + '/' + name.lstrip('/')
+        recv = [r for r in su_routes(case, tree) if reqpath.startswith(r[0])]
+        if recv and (recv[0][0] != mine or recv[0][1] != su_spec_dir(tree, su_expand(tree, spec))):
+            v['observation'] = 'O-C16d'
         return v
     return None
 
@@ -1286,6 +1282,20 @@ def su_model_case(case, tree):
             'query': mq, 'anchor': None if case.get('anchor') is None else codes(case['anchor'])}
 
 
+def su_routes(case, tree):
+    """the static routes in MAPPER order: (URL prefix, root directory, spec); a route declared again under the same name replaces
+    the earlier one and moves to the end (RoutesMapper.connect), so an earlier-declared shorter prefix can come to precede it"""
+    pre = ('/' + case['prefix'].strip('/') if case.get('prefix') else '')
+    routes = []
+    for name, spec in case['adds']:
+        n = su_norm_name(name)
+        if su_is_url(n):
+            continue
+        pfx = pre + '/' + n.lstrip('/')
+        routes = [r for r in routes if r[0] != pfx] + [(pfx, su_spec_dir(tree, su_expand(tree, su_norm_spec(spec))), su_expand(tree, spec))]
+    return routes
+
+
 def su_c16_back(case, got, tree):
     """C16's OWN statement on the way-back request, whatever URL generation did: the static view that receives the request
     (first route, in route order, whose prefix the path starts with) serves what the normalised remainder designates below ITS
@@ -1293,14 +1303,7 @@ def su_c16_back(case, got, tree):
     back = got.get('back')
     if back is None or case.get('override') or 'back_path' not in got:
         return None
-    pre = ('/' + case['prefix'].strip('/') if case.get('prefix') else '')
-    routes = []                                     # (prefix, root directory); a route added again under the same name moves to the end
-    for name, spec in case['adds']:
-        n = su_norm_name(name)
-        if su_is_url(n):
-            continue
-        pfx = pre + '/' + n.lstrip('/')
-        routes = [r for r in routes if r[0] != pfx] + [(pfx, su_spec_dir(tree, su_expand(tree, su_norm_spec(spec))), su_expand(tree, spec))]
+    routes = su_routes(case, tree)
     if back['out'] == 'file':
         roots = [r[1] for r in routes]
         if back.get('path') is None or not any(back['path'].startswith(r + '/') for r in roots):
@@ -1598,7 +1601,7 @@ def _run(ctx, rng):
     notes = ['regression witness %s -> impl %s' % (json.dumps(w['pieces']), json.dumps(canon_impl(impl(w)), default=str)[:160].replace(get_tree(0).T, '<T>'))
              for w in WITNESSES]
     OBS = {'O-C16c': 'add_static_view with a local name that is already registered keeps the earlier registration (the name is compared with the URL column): static_url of the old spec still answers, through the re-bound route',
-           'O-C16d': 'a static view mounted below the URL prefix of an earlier one: the generated URL is matched by the earlier route',
+           'O-C16d': 'a static view whose URL prefix lies below that of a static route preceding it in mapper order (declared earlier, or this one was re-declared and moved to the end): the generated URL is received by the other view',
            'O-C16e': 'a str / None _query with a query-string cache buster raises (tuple(query)); a dict _query is mutated in place'}
     for k in sorted(OBS):
         notes.append('observation %s seen %d times (as-built behaviour of static URL generation, outside the property statement): %s'
